@@ -381,6 +381,17 @@ Fixpoint prop_hd_ops (t : hd_conf) (ops : list hdop) (obs : list val) : bool :=
     end && prop_hd_ops t rest ro
   | _, _ => false
   end.
+(* every documented variable is known to the module, and each documented SET / ADD command whose value is that
+   variable (alone, or embedded in text) is a valid configuration *)
+Definition s_XA : bytes := [88; 45; 65].   (* "X-A" *)
+Definition documented_variables_valid : bool :=
+  forallb (fun v =>
+    mem v header_variables
+    && forallb (fun ca =>
+         (snd ca =? 1)
+         || (valid_header_conf (fst ca) [s_XA; 37 :: v]
+             && valid_header_conf (fst ca) [s_XA; [105; 100; 61] ++ 37 :: v ++ [59; 32; 120]]))
+       doc_header) doc_variables.
 Definition spec (i : cinput) (o : coutput) : bool :=
   match i, o with
   | IRewrite c p u, ORejected => negb (valid_rewrite_conf c p)
